@@ -39,7 +39,15 @@ MCCat == <<
   [T |-> St(<<F("Chunks", 1, "", [k |-> "slice", e |-> BytT]), F("Opt", 2, "", [k |-> "ptr", e |-> BytT]), F("S", 3, "", StrT)>>),
    vals |-> << <<[nil |-> TRUE, e |-> <<>>], NilP, <<>>>>,
                <<[nil |-> FALSE, e |-> <<[nil |-> FALSE, b |-> <<1>>], [nil |-> TRUE, b |-> <<>>], [nil |-> FALSE, b |-> <<2, 3>>]>>],
-                 [nil |-> FALSE, v |-> [nil |-> TRUE, b |-> <<>>]], <<116, 97, 105, 108>>>> >>, cfg |-> "default"]
+                 [nil |-> FALSE, v |-> [nil |-> TRUE, b |-> <<>>]], <<116, 97, 105, 108>>>> >>, cfg |-> "default"],
+  \* pointer-shaped values below the top level: Go stores struct{struct{*T}} (any depth) directly in the interface word, so Marshal by value
+  \* receives the pointer itself where every other by-value call receives a pointer to a copy
+  [T |-> St(<<F("L", 1, "", St(<<F("P", 1, "", [k |-> "ptr", e |-> IntT])>>))>>),
+   vals |-> << << <<NilP>> >>, << <<[nil |-> FALSE, v |-> I(0)]>> >>, << <<[nil |-> FALSE, v |-> I(7)]>> >> >>, cfg |-> "default"],
+  [T |-> St(<<F("L", 1, "", St(<<F("M", 1, "", [k |-> "map", key |-> StrT, val |-> IntT])>>))>>),
+   vals |-> << << <<[nil |-> TRUE, m |-> <<>>]>> >>, << <<[nil |-> FALSE, m |-> << <<<<107>>, I(1)>> >>]>> >> >>, cfg |-> "default"],
+  [T |-> St(<<F("A", 1, "", St(<<F("B", 1, "", St(<<F("P", 1, "", [k |-> "ptr", e |-> StrT])>>))>>))>>),
+   vals |-> << << << <<NilP>> >> >>, << << <<[nil |-> FALSE, v |-> <<120, 121>>]>> >> >> >>, cfg |-> "default"]
 >>
 \* ---- C19: interned string fields, their plain twins, null.String, two interned fields in one struct ----
 Hat == <<104, 97, 116>>
